@@ -212,8 +212,27 @@ def cli_loop(rec, rnd, tmp, k):
         pre += 'field.description = regex_replace(field.description, "^ZZ-NEVER-THERE ", "")\n\n'
     if rnd.random() < .4:
         pre += '[Needs A Column]\nmatch: field.type == "DEP" and amount > 0\ncategory: Deposits\n\n'
+    if rnd.random() < .4:
+        # top-level variables of the user's file that happen to be named like a word of a statement line (large, gas, prime ...): a name inside the quotes
+        # of a suggested pattern is text
+        words = []
+        for d_ in descs:
+            words += [w_.lower() for w_ in re.findall(r'[A-Za-z]{3,}', d_)[:3]]
+        for w_ in rnd.sample(sorted(set(words)), min(3, len(set(words)))):
+            if w_.isidentifier() and w_ not in ('and', 'not', 'for', 'amount', 'description', 'month', 'year', 'day', 'date', 'source', 'true', 'false', 'none', 'field', 'txn', 'len', 'sum', 'any', 'all', 'abs', 'min', 'max', 'next'):
+                pre = '%s = %s\n' % (w_, rnd.choice(['amount > 100', 'anyof("SHELL", "CHEVRON")', '"x"'])) + pre
+        rec.count('cli_loops_with_variables_named_like_description_words')
+    most_specific = rnd.random() < .3
+    if most_specific:
+        # most_specific mode and a tag-only rule that is more specific than any suggestion (it tags, it decides nothing)
+        pre += '[Flag Everything]\nmatch: amount > 0 and month >= 1 and regex(".")\npriority: 60\ntags: seen\n\n'
+        rec.count('cli_loops_in_most_specific_mode')
     rec.count('cli_loops_with_existing_rules', 1 if pre else 0)
     b = make_budget(tmp, k, descs, with_rules=pre, reader=reader)
+    if most_specific:
+        sp_ = os.path.join(b, 'config', 'settings.yaml')
+        with open(sp_, 'a') as f_:
+            f_.write('rule_mode: most_specific\n')
     case = {'kind': 'cli', 'descs': descs, 'reader': reader, 'existing_rules': pre}
     rec.case()
     rec.count('cli_loops')
